@@ -631,6 +631,9 @@ def run_case(case):
         except BaseException as e:
             out = classify(e)
             exc = "%s: %s" % (type(e).__name__, str(e)[:160])
+            if op[0] == "Py" and isinstance(e, AssertionError):
+                # a directed case states its expectation as an assertion
+                fails.append({"step": len(ops_out), "kind": "directed-assertion", "detail": str(e)[:300]})
             del H[nh:]
             if gen and isinstance(e, TypeError) and MRO_MSG in str(e):
                 # no C3 order: refused before anything is touched; not in the model's vocabulary
